@@ -40,6 +40,8 @@ def check(m, run):
     _sd.fit3(m, run)
     _sd.is2(m, run)
     _sd.ic2(m, run)
+    _sd.bf3(m, run)        # the collocation matrices are filled with basis values: the Cox-de Boor polynomials on every span, however narrow (BF3, shared with C03)
+    _sd.gd3(m, run)        # the fitted shape is defined through the public setters: each direction accepts the valid vector of its own degree and size (GD3, shared with C03)
     fit_ok = all(o.ok for o in run.obs[n0:])
     if fit_ok:
         # FIT3 has decided that compute_params_surface returns (parameters along u, parameters along v): the direction tags of its result
